@@ -27,7 +27,7 @@ use yash_env::semantics::expansion::quote_removal::remove_quotes;
 use yash_env::semantics::expansion::split::{Class, Ifs};
 use yash_env::source::Location;
 use yash_env::system::r#virtual::FileBody;
-use yash_env::variable::{IFS, Scope, Value};
+use yash_env::variable::{Context, IFS, PositionalParams, Scope, Value};
 use yash_semantics::expansion::initial::{Env as InitialEnv, Expand as _, Vacancy};
 use yash_semantics::expansion::phrase::Phrase;
 use yash_semantics::expansion::{Error as ExpError, ErrorCause};
@@ -509,6 +509,8 @@ struct ShState {
     bg: Option<i32>,
     ctx: String,
     portable: bool,
+    /// variables every function call of a `fn` history declares local (`typeset`), with a scalar value or none
+    locals: Vec<(String, Option<String>)>,
 }
 
 fn parse_list(v: &str) -> Option<Vec<String>> {
@@ -533,6 +535,14 @@ fn parse_state(toks: &[&str]) -> Option<ShState> {
             "bg" => st.bg = Some(v.parse().ok()?),
             "ctx" => st.ctx = v.to_string(),
             "portable" => st.portable = v == "1",
+            _ if k.starts_with('@') => {
+                let val = if v == "U" {
+                    None
+                } else {
+                    Some(dec_str(v.strip_prefix('s')?)?)
+                };
+                st.locals.push((k[1..].to_string(), val));
+            }
             _ => {
                 let (ro, name) = match k.strip_prefix('!') {
                     Some(n) => (true, n),
@@ -682,6 +692,8 @@ struct Direct {
     parse: Option<String>,
     /// expected fields by the oracle, or the error class
     expect: Option<Result<Vec<String>, String>>,
+    /// `fn` histories: expected fields of the steps completed
+    steps: Vec<Vec<String>>,
 }
 
 fn config(script: String, st: &ShState) -> Config {
@@ -737,7 +749,27 @@ fn strip_api_ok(chars: &[AttrChar]) -> bool {
     a && b && c && af.strip().value == plain
 }
 
-fn script_for(ctx: &str, srcs: &[String]) -> Option<String> {
+fn script_for(ctx: &str, srcs: &[String], locals: &[(String, Option<String>)]) -> Option<String> {
+    if ctx == "fn" {
+        // words 1, 3, … inside a function call (locals declared first), words 2, 4, … at top level after the return
+        let mut decl = String::new();
+        for (n, v) in locals {
+            match v {
+                None => decl.push_str(&format!("typeset {n}; ")),
+                Some(v) if !v.contains('\'') => decl.push_str(&format!("typeset {n}='{v}'; ")),
+                _ => return None,
+            }
+        }
+        let mut s = String::new();
+        for (i, src) in srcs.iter().enumerate() {
+            if i % 2 == 0 {
+                s.push_str(&format!("f{i}() {{ {decl}probe {src}; }}\nf{i} \"$@\"\n"));
+            } else {
+                s.push_str(&format!("probe {src}\n"));
+            }
+        }
+        return Some(s);
+    }
     Some(match ctx {
         "arg" => format!("probe {}\n", srcs.join(" ")),
         "for" => format!("for v in {}; do probe \"$v\"; done\n", srcs.join(" ")),
@@ -778,7 +810,10 @@ fn run_w(state_toks: &[&str], word_text: &str) -> (String, String) {
     if ctx == "arg" && srcs.is_empty() {
         return ("unrenderable".into(), "-".into());
     }
-    let Some(script) = script_for(&ctx, &srcs) else {
+    if ctx == "fn" && srcs.is_empty() {
+        return ("unrenderable".into(), "-".into());
+    }
+    let Some(script) = script_for(&ctx, &srcs, &st.locals) else {
         return ("bad-case".into(), "-".into());
     };
     let direct = Rc::new(RefCell::new(Direct::default()));
@@ -794,8 +829,13 @@ fn run_w(state_toks: &[&str], word_text: &str) -> (String, String) {
             // the oracle works on a clone of the environment (same virtual system, own variables)
             let mut d = direct2.borrow_mut();
             let mut env2 = env.clone();
+            if ctx2 == "fn" {
+                // the function definition that precedes every step leaves `$?` = 0
+                env2.exit_status = ExitStatus(0);
+            }
             let mut fields: Vec<String> = vec![];
-            for (src, want) in srcs2.iter().zip(&wants) {
+            for (step, (src, want)) in srcs2.iter().zip(&wants).enumerate() {
+                let before = fields.len();
                 // the real parser's view of the rendered source
                 let parsed: Result<sx::Word, String> = if ctx2 == "here" {
                     src.parse::<sx::Text>()
@@ -820,7 +860,21 @@ fn run_w(state_toks: &[&str], word_text: &str) -> (String, String) {
                 if &got != want {
                     d.parse = Some(got.replace(' ', "_"));
                 }
-                let r = {
+                let r = if ctx2 == "fn" && step % 2 == 0 {
+                    // inside a function call: own variable context with the declared locals, same positional parameters
+                    let pos = env2.variables.positional_params().values.clone();
+                    let mut g = env2.push_context(Context::Regular {
+                        positional_params: PositionalParams { values: pos, last_modified_location: None },
+                    });
+                    for (n, v) in &st2.locals {
+                        let mut var = g.get_or_create_variable(n.clone(), Scope::Local);
+                        if let Some(v) = v {
+                            let _ = var.assign(v.clone(), None);
+                        }
+                    }
+                    let mut ienv = InitialEnv::new(&mut *g);
+                    w.expand(&mut ienv).now_or_never()
+                } else {
                     let mut ienv = InitialEnv::new(&mut env2);
                     w.expand(&mut ienv).now_or_never()
                 };
@@ -870,6 +924,8 @@ fn run_w(state_toks: &[&str], word_text: &str) -> (String, String) {
                         }
                     }
                 }
+                let this_step = fields[before..].to_vec();
+                d.steps.push(this_step);
             }
             d.expect = Some(Ok(fields));
         },
@@ -890,6 +946,32 @@ fn run_w(state_toks: &[&str], word_text: &str) -> (String, String) {
             body.split(',').map(|h| dec_str(h).unwrap_or_else(|| "?".into())).collect()
         }
     };
+    if ctx == "fn" {
+        // one probe line per completed step; then possibly the error that ended the history
+        let got: Vec<Vec<String>> = out.lines().map(|l| probe_fields(l)).collect();
+        let mut oracle = vec![];
+        if let Some(p) = &d.parse {
+            oracle.push(format!("parse:{p}"));
+        }
+        let mut parts: Vec<String> = got.iter().map(|fs| show_fields(fs)).collect();
+        let complete = !failed && got.len() == srcs.len();
+        if !complete {
+            match &d.expect {
+                Some(Err(c)) if failed && got.len() < srcs.len() => parts.push(format!("err={c}")),
+                _ => {
+                    oracle.push(format!("shell-failed:status={}:lines={}", outcome.exit_status, got.len()));
+                    parts.push("err=?".into());
+                }
+            }
+        } else if matches!(&d.expect, Some(Err(_)) | None) {
+            oracle.push("shell-succeeded-direct-failed".into());
+        }
+        if d.steps.len() < got.len() || d.steps[..got.len()] != got[..] {
+            oracle.push(format!("history:expected:{:?}", d.steps).replace([' ', '\t'], "_"));
+        }
+        let oracle = if oracle.is_empty() { "ok".to_string() } else { format!("FAIL:{}", oracle.join(";")) };
+        return (format!("{} v={vars}", parts.join(" | ")), oracle);
+    }
     let observed: Result<Vec<String>, ()> = if failed {
         Err(())
     } else {
@@ -1367,6 +1449,21 @@ fn ctx_case(r: &mut Rng, state: &str, w: &[WU]) -> String {
         let ts: Vec<TU> = w.iter().filter_map(|u| if let WU::Unq(t) = u { Some(t.clone()) } else { None }).collect();
         render_tus(&ts, Ctx::Here, &mut String::new()).is_some()
     };
+    if r.chance(1, 8) {
+        // a history across function calls
+        let mut words = vec![word_string(w)];
+        for _ in 0..r.below(4) {
+            loop {
+                let extra = random_word(r, Ctx::Top, 1, 3);
+                if renderable(&extra) {
+                    words.push(word_string(&extra));
+                    break;
+                }
+            }
+        }
+        let locals = *r.pick(&LOCAL_STATES);
+        return format!("W ctx=fn {} {} | {}", locals, state, words.join(" ;; ")).replace("fn  ", "fn ");
+    }
     let ctx = match r.below(20) {
         0..=9 => "arg",
         10 | 11 | 12 => "for",
@@ -1394,6 +1491,41 @@ fn ctx_case(r: &mut Rng, state: &str, w: &[WU]) -> String {
         }
     }
     format!("W ctx={} {} | {}", ctx, state, words.join(" ;; "))
+}
+
+const LOCAL_STATES: [&str; 8] = ["", "", "@x=U", "@u=U", "@e=s-", "@x=s61 @u=U", "@y=s612062", "@r=U @e=U"];
+
+/// histories around the assigning switches: `${p=w}` / `${p:=w}` inside a function call, then later
+/// expansions of the same parameter after the return, in a second call, and at top level again
+fn assign_history_family() -> Vec<Vec<Vec<WU>>> {
+    let mut out = vec![];
+    let inner: Vec<Vec<WU>> = vec![
+        vec![lit('q')],
+        vec![lit('a'), lit(' '), lit('b')],
+        vec![WU::Dq(vec![raw("@")])],
+        vec![],
+    ];
+    for p in ["x", "y", "e", "u", "r"] {
+        for colon in [false, true] {
+            for w in &inner {
+                let first = vec![WU::Unq(braced(p, Mo::Sw { colon, act: '=', w: w.clone() }))];
+                let later: Vec<Vec<WU>> = vec![
+                    vec![WU::Unq(raw(p))],
+                    vec![WU::Dq(vec![braced(p, Mo::Sw { colon: false, act: '-', w: vec![lit('U')] })])],
+                    vec![WU::Unq(braced(p, Mo::Sw { colon, act: '=', w: vec![lit('z')] }))],
+                    vec![WU::Unq(braced(p, Mo::Len))],
+                    vec![WU::Unq(braced(p, Mo::Sw { colon: true, act: '?', w: vec![] }))],
+                ];
+                for (i, a) in later.iter().enumerate() {
+                    out.push(vec![first.clone(), a.clone()]);
+                    let b = &later[(i + 1) % later.len()];
+                    out.push(vec![first.clone(), a.clone(), b.clone(), later[0].clone()]);
+                    out.push(vec![vec![lit('k')], first.clone(), a.clone(), b.clone()]);
+                }
+            }
+        }
+    }
+    out
 }
 
 /// the family around `will_split` save/restore: nested double quotes, switches and trims inside
@@ -1569,6 +1701,20 @@ fn main() {
         for _ in 0..kf {
             let st = state_text(&mut rng);
             out(ctx_case(&mut rng, &st, &w));
+        }
+    }
+    // 1c. assign-default histories across function calls, with every local-declaration profile
+    let kh = if thorough { 6 } else { 1 };
+    for hist in assign_history_family() {
+        if !hist.iter().all(|w| renderable(w)) {
+            continue;
+        }
+        let words: Vec<String> = hist.iter().map(|w| word_string(w)).collect();
+        for locals in LOCAL_STATES {
+            for _ in 0..kh {
+                let st = state_text(&mut rng);
+                out(format!("W ctx=fn {} {} | {}", locals, st, words.join(" ;; ")).replace("fn  ", "fn "));
+            }
         }
     }
     // 2. all pairs (thorough: also triples) over the base alphabet
